@@ -358,7 +358,7 @@ var strs = []string{`""`, `"a"`, `"\n\t\\\""`, `"\x41\101Ã©\U0001F600"`, `"æ—¥æœ
 
 var badStrs = []string{`"`, `"abc`, `"a\`, `'`, `''`, `'ab'`, `'\`, `'\x4'`, `'\400'`, `"\q"`, `"\x4g"`, `"\u12"`, `"\U00110000"`, `'\ud800'`, "`abc", `"a` + "\n" + `"`, `'a` + "\n", `"\`, `'\''''`, `'\x'`, `"\8"`}
 
-var cmts = []string{"/**/", "/* a */", "/* a\nb */", "/*\n*/", "// c\n", "//\n", "// a\r\n", "/* a\r\nb */", "/*/ */", "/***/", "/* * / */", "//line f.go:10\n", "/*line g.go:3:4*/", "//line :7\n", "//line h.go:0\n", "//line k.go:12:0\n", "//line q.go:x\n", "//line r.go:1073741824\n", "//line r.go:5:1073741824\n", "/*line  w.go :12*/", "// æ—¥æœ¬\n", "/* ~ # macro */", "// # ~ macro\n"}
+var cmts = []string{"/**/", "/* a */", "/* a\nb */", "/*\n*/", "// c\n", "//\n", "// a\r\n", "/* a\r\nb */", "/*/ */", "/***/", "/* * / */", "//line f.go:10\n", "//line f.go:11\r\n", "//line f.go:12:3\r\n", "/*line g.go:3:4*/", "//line :7\n", "//line h.go:0\n", "//line k.go:12:0\n", "//line q.go:x\n", "//line r.go:1073741824\n", "//line r.go:5:1073741824\n", "/*line  w.go :12*/", "// æ—¥æœ¬\n", "/* ~ # macro */", "// # ~ macro\n"}
 
 var seps = []string{"", " ", " ", "  ", "\t", "\n", "\n", "\r\n", " \n ", "\n\n", "\r", "\n\t"}
 
@@ -562,6 +562,84 @@ func goFiles(roots []string) []string {
 
 // ---------------------------------------------------------------- main
 
+// ---------------------------------------------------------------- line-ending variants
+// crlf: Windows form of an input - every '\n' that is not already preceded by '\r' becomes "\r\n"
+func crlf(b []byte) []byte {
+	out := make([]byte, 0, len(b)+len(b)/16)
+	for i, c := range b {
+		if c == '\n' && (i == 0 || b[i-1] != '\r') {
+			out = append(out, '\r')
+		}
+		out = append(out, c)
+	}
+	return out
+}
+
+// crMix: every '\n' independently stays, becomes "\r\n", "\r\r\n" or a lone "\r"; a few lone '\r' are inserted elsewhere
+func crMix(r *vh.Rng, b []byte) []byte {
+	out := make([]byte, 0, len(b)+len(b)/8)
+	for _, c := range b {
+		if c == '\n' {
+			switch r.Intn(8) {
+			case 0, 1, 2, 3:
+				out = append(out, '\r', '\n')
+			case 4:
+				out = append(out, '\r', '\r', '\n')
+			case 5:
+				out = append(out, '\r')
+			default:
+				out = append(out, '\n')
+			}
+			continue
+		}
+		if r.Chance(1, 60) {
+			out = append(out, '\r')
+		}
+		out = append(out, c)
+	}
+	return out
+}
+
+// checkLE checks an input and its line-ending variants (the CRLF form always when it differs; a mixed form for every third input)
+func (h *harness) checkLE(r *vh.Rng, src []byte, gen string, doDefuse bool) {
+	h.check(src, gen, doDefuse)
+	if w := crlf(src); !bytes.Equal(w, src) {
+		h.check(w, gen+"+crlf", doDefuse)
+	}
+	if r.Chance(1, 3) {
+		if w := crMix(r, src); !bytes.Equal(w, src) {
+			h.check(w, gen+"+crmix", doDefuse)
+		}
+	}
+}
+
+// lineDirectives: the product  context before x directive text x comment terminator x following tokens.
+// Directive texts cover file:line, file:line:col, missing/empty/invalid/overflowing numbers, blanks, Windows paths
+// containing ':', and the block form /*line ...*/ (also spanning lines); terminators are every line ending a source can
+// have (LF, CRLF, CR CR LF, lone CR, end of input, blanks before the line end).
+func lineDirectives() [][]byte {
+	texts := []string{"line f.go:10", "line f.go:10:5", "line :7", "line f.go:0", "line f.go:10:0", "line f.go:x", "line  f.go :12", "line f.go:10 ", "line f.go: 10",
+		"line", "line ", "line f.go", "line f.go:10:", "line C:\\d\\x.go:5", "line C:\\d\\x.go:5:6", "line f.go:1073741824", "line f.go:5:1073741824", "line f.go:1073741823", "line\tf.go:3", "Line f.go:3", " line f.go:3",
+		"line f.go:+3", "line f.go:03", "line æ—¥æœ¬.go:2", "line f.go:10:5:6", "line :", "line ::", "line :1:"}
+	before := []string{"", "x\n", "x\r\n", "  ", "x ", "\ufeff", "\n\n", "/* c */", "x\r"}
+	ends := []string{"\n", "\r\n", "\r\r\n", "\r", "", " \r\n", "\r \n", "\t\n"}
+	after := []string{"x y\n", "x\r\ny z", "", "\"s\" +\r\n1"}
+	var out [][]byte
+	for _, b := range before {
+		for _, t := range texts {
+			for _, a := range after {
+				for _, e := range ends {
+					out = append(out, []byte(b+"//"+t+e+a))
+				}
+				for _, e := range []string{"", "\n", "\r\n", " "} {
+					out = append(out, []byte(b+"/*"+t+"*/"+e+a), []byte(b+"/*"+t+"\r*/"+e+a), []byte(b+"/*"+t+"\r\n*/"+e+a))
+				}
+			}
+		}
+	}
+	return out
+}
+
 type harness struct {
 	a            *vh.Args
 	rep          *vh.Report
@@ -702,15 +780,17 @@ func main() {
 			keywordsStd = append(keywordsStd, t.String())
 		}
 	}
-	rep := vh.NewReport(a, "inputs: corpus/C23 (exact inputs of known findings, not defused); bounded-exhaustive strings over the alphabet {x 0 . e / * \\n space \" ` ' \\\\ ; +} up to length 4 (thorough 5); "+
+	rep := vh.NewReport(a, "inputs: corpus/C23 (exact inputs of known findings, not defused); bounded-exhaustive strings over the alphabet {x 0 . e / * \\n \\r space \" ` ' \\\\ ; +} up to length 4 (thorough 5); "+
 		"token soups (valid tokens: identifiers incl. non-ASCII, all keywords, all operators, number literals built from prefix/digits/_/./exponent/i pieces, strings/runes/raw strings, comments incl. //line directives, random separators, optional BOM), with and without invalid pieces (NUL, invalid UTF-8, BOM inside, unterminated literals/comments, bad escapes, '#', '~', macro); "+
+		"the bounded product (context before) x (//line and /*line*/ directive texts: file:line[:col], empty/invalid/overflowing numbers, blanks, Windows paths) x (comment terminator: LF, CRLF, CR CR LF, lone CR, end of input, blank before the line end) x (following tokens); "+
+		"every seed, soup, number and mutated chunk also in its CRLF form (every LF -> CR LF) and a third of them in a mixed form (LF -> CRLF / CR CR LF / lone CR at random, stray CRs inserted), every third real file in CRLF form; "+
 		"byte-level and token-level mutations of chunks of real sources; whole files of $GOROOT/src and the gomacro tree (quick: 300-file sample; thorough: all). Every input is scanned in both modes (comments skipped / ScanComments). "+
 		"Known-finding class avoided (C23-1/2/3, DESIGN 7 #14): a run of comments directly followed by an automatic semicolon in the go1.23 stream [in skip mode except when that comment ends the input = the property's allowance] - generated inputs are defused by inserting an explicit ';' in front of the run; bounded-exhaustive inputs of the class are only checked for error equivalence. "+
 		"Oracle: extension-free (std stream has no '~' token, no ILLEGAL '#', no identifier macro) => fork errors>0 iff std errors>0, and if std has no error: identical (token, literal, offset, line, column, //line-adjusted position) sequences and line tables. "+
 		"A case is non-trivial when the full sequence comparison applied (extension-free, no error, outside the known-finding class); distinct by mode+input bytes")
-	h := &harness{a: a, rep: rep, stride: 20}
+	h := &harness{a: a, rep: rep, stride: 50}
 	if a.Thorough() {
-		h.stride = 100
+		h.stride = 250
 	}
 	h.wd = vh.NewWatchdog(rep, 20*time.Second)
 	h.cw = vh.NewCases(a, caseHeader, "case", "mismatches", 150)
@@ -755,7 +835,7 @@ func main() {
 	h.keywordOracle(rng)
 
 	// 1. bounded exhaustive
-	alpha := []byte("x0.e/*\n \"`'\\;+")
+	alpha := []byte("x0.e/*\n\r \"`'\\;+")
 	maxLen := 4
 	if a.Thorough() {
 		maxLen = 5
@@ -780,7 +860,21 @@ func main() {
 	// 2. hand-written seeds
 	for _, s := range seedInputs {
 		h.check([]byte(s), "seed", true)
+		if w := crlf([]byte(s)); !bytes.Equal(w, []byte(s)) {
+			h.check(w, "seed+crlf", true)
+		}
+		for k := 0; k < 3; k++ {
+			if w := crMix(rng, []byte(s)); !bytes.Equal(w, []byte(s)) {
+				h.check(w, "seed+crmix", true)
+			}
+		}
 	}
+	// 2b. line directives x line terminators (bounded product)
+	lds := lineDirectives()
+	for _, d := range lds {
+		h.check(d, "line-directive", true)
+	}
+	rep.Extra["line_directive_inputs"] = len(lds)
 
 	// 3. soups, numbers
 	nSoup, nNum, nMut, nFiles := 5000, 2500, 5000, 300
@@ -791,12 +885,12 @@ func main() {
 		nSoup, nNum, nMut = a.N, a.N, a.N
 	}
 	for i := 0; i < nSoup; i++ {
-		h.check(soup(rng, 3+rng.Intn(30), i%3 == 0), map[bool]string{true: "soup-with-invalid", false: "soup-valid"}[i%3 == 0], true)
+		h.checkLE(rng, soup(rng, 3+rng.Intn(30), i%3 == 0), map[bool]string{true: "soup-with-invalid", false: "soup-valid"}[i%3 == 0], true)
 	}
 	for i := 0; i < nNum; i++ {
 		pre := pick(rng, []string{"", "", "x=", "x ", "(", "-", ".", "a.", "0", "+"})
 		post := pick(rng, []string{"", "", "\n", ";", " y", ")", ".", "..", "i", "e", "/*c*/", "//c"})
-		h.check([]byte(pre+numLit(rng)+post), "number", true)
+		h.checkLE(rng, []byte(pre+numLit(rng)+post), "number", true)
 	}
 
 	// 4. real files
@@ -826,6 +920,9 @@ func main() {
 		}
 		nReal++
 		h.check(b, "real-file", true)
+		if nReal%3 == 0 {
+			h.check(crlf(b), "real-file+crlf", true)
+		}
 		if len(chunks) < 4000 && len(b) > 0 {
 			// a chunk aligned on line starts, <= ~600 bytes
 			p := rng.Intn(len(b))
@@ -845,9 +942,9 @@ func main() {
 	for i := 0; i < nMut && len(chunks) > 0; i++ {
 		c := chunks[rng.Intn(len(chunks))]
 		if i%2 == 0 {
-			h.check(mutateBytes(rng, c), "mutate-bytes", true)
+			h.checkLE(rng, mutateBytes(rng, c), "mutate-bytes", true)
 		} else {
-			h.check(mutateTokens(rng, c), "mutate-tokens", true)
+			h.checkLE(rng, mutateTokens(rng, c), "mutate-tokens", true)
 		}
 	}
 	h.cw.Close()
